@@ -218,6 +218,16 @@ package main
 //@ func (l *patchLoader) Programs
 //@   inline
 
+// Loading one patch for the command (C12, C16, C19): parsed under the name given, compiled into the same file
+// set; a patch that does not parse or compile is an error, never a partial program.
+//@ func parseAndCompile(fset, name, src) (prog, err)
+//@   requires fset != nil
+//@   requires typing: compileEnvOK()
+//@   at call parse.Parse assert [C19] parsed-under-the-name-given: arg0 == fset && arg1 == name && arg2 == src
+//@   at call engine.Compile assert [C12] compiled-into-the-same-file-set: arg0 == fset && arg1 == ret("parse.Parse", 0, 0)
+//@   ensures [C16,C19] a-patch-that-does-not-parse-is-rejected: ret("parse.Parse", 0, 1) != nil ==> err != nil && prog == nil
+//@   ensures [C09] err == nil ==> wfProg(prog)
+
 //@ func funcval:github.com/uber-go/gopatch.patchLoader.parseAndCompile(fset, name, src) (prog, err)
 //@   assigns nothing
 //@   ensures err == nil ==> wfProg(prog)
